@@ -430,25 +430,13 @@ func runPartA(r *lib.Run) {
 				fullAt[b] = true
 			}
 		}
-		// thorough: all 105 subsets of size 1 and 2 plus 100 random ones of size 3 and 4;
-		// quick: all 14 single shards, 30 random pairs, 20 random subsets of size 3 and 4
-		var quickSubsets [][]int
-		if r.Thorough() {
-			quickSubsets = allSubsets(2)
-			for i := 0; i < 100; i++ {
-				quickSubsets = append(quickSubsets, randomSubset(rng, 3+rng.Intn(2)))
-			}
-		} else {
-			quickSubsets = allSubsets(1)
-			for i := 0; i < 30; i++ {
-				quickSubsets = append(quickSubsets, randomSubset(rng, 2))
-			}
-			for i := 0; i < 20; i++ {
-				quickSubsets = append(quickSubsets, randomSubset(rng, 3+rng.Intn(2)))
-			}
+		// all 105 subsets of size 1 and 2 plus random ones of size 3 and 4 (quick 40, thorough 100)
+		quickSubsets := allSubsets(2)
+		for i := 0; i < r.Pick(40, 100); i++ {
+			quickSubsets = append(quickSubsets, randomSubset(rng, 3+rng.Intn(2)))
 		}
 		everySubset := allSubsets(4) // all 1470 non-empty subsets of size <= 4
-		rebuildEvery := int64(r.Pick(200, 10))
+		rebuildEvery := int64(r.Pick(100, 10))
 		step := int64(1)
 		if r.Quick() && si > 0 {
 			step = 7 // coprime with the block sizes; boundaries are added below
@@ -460,11 +448,6 @@ func runPartA(r *lib.Run) {
 		for n := int64(1); n <= maxN; n++ {
 			_, _, class := rowClass(n, sc.L, sc.S)
 			onStride := (n-1)%step == 0
-			if r.Quick() && si == 0 && n > 10*sc.L+10*sc.S+10 {
-				// quick: every size up to one large row plus one small row, every third size beyond
-				// (plus everything within 1 of a row boundary and the two suspicious row classes)
-				onStride = (n-1)%3 == 0
-			}
 			nearBoundary := n%(10*sc.S) <= 1 || n%(10*sc.S) == 10*sc.S-1 || n%(10*sc.L) <= 1
 			if !onStride && !nearBoundary && !fullAt[n] && (class == "normal" || step > 1) {
 				continue
@@ -748,7 +731,9 @@ func runVolume(r *lib.Run, rng *rand.Rand, idxv int, plan volPlan) {
 	var order []uint64
 	key := uint64(100)
 	datSize := func() int64 { sz, _, _ := v.FileStat(); return int64(sz) }
+	lastIsDelete := false // whether the .dat currently ends with a deletion record
 	put := func(k uint64, cookie uint32, d int, name, mime string) {
+		lastIsDelete = false
 		data := dataBuf[:d]
 		rng.Read(data)
 		n := mkNeedle(k, cookie, data, name, mime, 1600000000+k)
@@ -767,6 +752,7 @@ func runVolume(r *lib.Run, rng *rand.Rand, idxv int, plan volPlan) {
 		_, err := s.DeleteVolumeNeedle(vid, &needle.Needle{Id: types.NeedleId(k), Cookie: types.Cookie(w.Cookie)})
 		r.Must(err, "DeleteVolumeNeedle")
 		w.Deleted = true
+		lastIsDelete = true
 	}
 	goal := plan.Target
 	if goal == 0 {
@@ -1009,12 +995,12 @@ func runVolume(r *lib.Run, rng *rand.Rand, idxv int, plan volPlan) {
 	r.Must(os.Link(v.IndexFileName()+".ecx", dbase+".ecx"), "link ecx")
 	dsz, err := ec.FindDatFileSize(dbase, dbase)
 	r.Eval(1)
-	lastIsLive := !plan.TrailDel
+	lastIsLive := !lastIsDelete
 	switch {
 	case err != nil:
 		r.Violation(lib.Sig{"op": "decode", "class": "find-size-error"}, det(map[string]interface{}{"err": err.Error()}))
 	case dsz > n || lastIsLive && dsz != n:
-		r.Violation(lib.Sig{"op": "decode", "class": "dat-size-differs", "row": boundary, "trailing_delete": fmt.Sprint(plan.TrailDel)}, det(map[string]interface{}{"found": dsz}))
+		r.Violation(lib.Sig{"op": "decode", "class": "dat-size-differs", "row": boundary, "trailing_delete": fmt.Sprint(lastIsDelete)}, det(map[string]interface{}{"found": dsz}))
 	default:
 		if err := ec.WriteDatFile(dbase, dsz); err != nil {
 			r.Violation(lib.Sig{"op": "decode", "class": "error", "row": boundary}, det(map[string]interface{}{"err": err.Error(), "found": dsz}))
